@@ -19,6 +19,9 @@ def main():
     with ThreadPoolExecutor(max_workers=8) as ex:
         res = list(ex.map(one, dirs))
     out = {}
+    last = os.path.join(ROOT, "selftest", "matrix_last.json")
+    if sys.argv[1:] and os.path.exists(last):
+        out = json.load(open(last))  # partial run: merge into the last full result
     for d, r in res:
         name = os.path.basename(d)
         target = name.split("-")[0]
